@@ -553,6 +553,36 @@ def _v_set_fields(u, v, which, val):
         value.merge_shapes([None, ir.Shape([2]), ir.Shape(["N", 3]), ir.Shape([None, None])][val % 4])
 
 
+@op("v_set_equal", "vii")
+def _v_set_equal(u, v, which, val):
+    """Assign something that compares EQUAL to what the value holds without being interchangeable with it."""
+    value = u.V(v)
+    w = which % 4
+    if w == 0:
+        cur = value.type
+        deno = [None, "IMAGE", "AUDIO"][val % 3]
+        if isinstance(cur, ir.TensorType):
+            value.type = ir.TensorType(cur.dtype, denotation=deno)  # TensorType.__eq__ ignores the denotation
+        elif cur is None:
+            value.type = ir.TensorType(ir.DataType.FLOAT, denotation=deno)
+        else:
+            value.type = cur
+    elif w == 1:
+        cur = value.shape
+        dims = list(cur.dims) if cur is not None else [2, "N"]
+        if val % 4 == 3:
+            value.shape = dims  # a list that equals the shape: the setter documents Shape | None (raises TypeError)
+            return
+        new = ir.Shape(dims, denotations=["BATCH"] + [None] * (len(dims) - 1) if (val % 2 and dims) else None)
+        value.shape = new
+        if dims and val % 4 != 1:
+            new[0] = 7  # the caller keeps editing the object it assigned
+    elif w == 2:
+        value.name = value.name
+    else:
+        value.const_value = value.const_value
+
+
 @op("new_model", "h")
 def _new_model(u, h):
     g = u.G(h)
@@ -569,7 +599,7 @@ def _new_function(u, h, k):
     return f
 
 
-SETTER_OPS = ["n_set_attr", "n_set_fields", "v_set_fields", "new_model", "new_function"]
+SETTER_OPS = ["n_set_attr", "n_set_fields", "v_set_fields", "v_set_equal", "new_model", "new_function"]
 DEFAULT_OPS = [k for k in ALPHABET if k not in ("conv_replace_nodes_values",) and k not in SETTER_OPS]
 
 
